@@ -17,6 +17,7 @@ RULE = (
     "written from the definition (generalised B-operator per cell and quadrature point). Families 'threads' "
     "(>= 2000 quadrature-cells, parallel on/off, repeated) and 'expression' (Form API == IntegralForm, sym on/off, "
     "sequential / threaded). Non-trivial: >= 2 cells sharing points and an integrand without zero components."
+    " Added later: full block lists on plane-strain mixed containers with integrands in the materials' (3, 3, q, c) shape, axisymmetric value-value and value-gradient forms."
 )
 ASSUMPTIONS = [
     "thread schedules are sampled, not owned: decided is 'the result does not depend on the parallel flag' on every generated input",
